@@ -1,5 +1,5 @@
 """C13 - configured resource limits are never exceeded.  DESIGN.md C13.1-C13.3."""
-from engine.cfg import (Explorer, estr, is_call, is_int, is_member, is_ref, strip_addr, walk,
+from engine.cfg import (reach_from, Explorer, estr, is_call, is_int, is_member, is_ref, strip_addr, walk,
                         written_lvalues)
 from engine.facts import AnalysisBroken
 from engine import lib
@@ -553,6 +553,18 @@ def c13_3(ck, prog):
                 names = {x.get('name') for x in walk(big) if is_ref(x)}
                 if {'header_len_unsigned', 'body_len_unsigned'} <= names or {'header_len', 'body_len'} & names:
                     found = True
+                    # the lengths compared are the lengths handed back: neither is changed afterwards
+                    ids = {x.get('id'): x.get('name') for x in walk(big) if is_ref(x) and x.get('kind') == 'local'}
+                    later = reach_from(h, h.succs(bid))
+                    for b2 in later:
+                        for ev in h.blocks[b2]['events']:
+                            for lhs, how, rhs in written_lvalues(ev):
+                                if is_ref(lhs) and lhs.get('id') in ids:
+                                    r2.violation('have_message_untrusted:%s-changed-after-limit-test' % ids[lhs['id']],
+                                                 h.name, h.file, ev['line'],
+                                                 '%s is modified after it was compared with max_message_length: the '
+                                                 'size tested is not the size the loader goes on to accept'
+                                                 % ids[lhs['id']])
     if found:
         r2.ok('have_message_untrusted:header+body>max')
     else:
